@@ -334,6 +334,7 @@ class Interp:
         self.loop_specs = loop_specs or {}   # (relpath, qual) -> {ordinal: LoopSpec}
         self.models = models or _models
         self.depth = 0
+        _nparr._CUR['I'] = self
         self.target = target                 # (relpath, qual) under verification (not replaced by its own contract)
         self.yields = None
 
@@ -1019,6 +1020,26 @@ class Interp:
                 names.add(n.id)
         return names
 
+    def mutated_names(self, body):
+        """names of objects written through a subscript / attribute store (X[...] = v, X[...] += v, X.a = v)
+        or through a mutating method call (X.append(..), X.insert(..), ...)"""
+        names = set()
+        for n in itertools.chain.from_iterable(_walk_no_nested_stmts(body)):
+            if isinstance(n, (ast.Subscript, ast.Attribute)) and isinstance(n.ctx, (ast.Store, ast.Del)):
+                b = n.value
+                while isinstance(b, (ast.Subscript, ast.Attribute)):
+                    b = b.value
+                if isinstance(b, ast.Name):
+                    names.add(b.id)
+            if isinstance(n, ast.Call) and isinstance(n.func, ast.Attribute) and n.func.attr in (
+                    'append', 'insert', 'extend', 'pop', 'remove', 'update', 'setdefault', 'sort', 'clear'):
+                b = n.func.value
+                while isinstance(b, (ast.Subscript, ast.Attribute)):
+                    b = b.value
+                if isinstance(b, ast.Name):
+                    names.add(b.id)
+        return names
+
     def cutpoint_loop(self, st, frame, spec, cond, step=None, pre_body=None):
         """Cut-point rule.  choice 0: establish the invariant, then continue after
         the loop from an arbitrary state satisfying inv && !cond.
@@ -1029,6 +1050,19 @@ class Interp:
         env = LoopEnv(self, frame)
         for g, v in (spec.ghost_init or {}).items():
             ctx.ghost[g] = v
+        if spec.lemmas is not None:
+            from .verify import discharge
+            for lname, lf in spec.lemmas(env):
+                if lname.startswith('trusted:'):
+                    # instance of a trusted library contract (e.g. the np.interp cell axiom at a given value)
+                    ctx.trust('instance assumed at a loop entry: ' + lname[8:])
+                    ctx.assume(lf)
+                    continue
+                ctx.prove(name + '/lemma:' + lname, lf, 'lemma')
+                ob = ctx.obligations[-1]
+                discharge(ob)
+                if ob.status == 'unsat' and is_sym(lf):
+                    ctx.pc.append(lf)
         ctx.prove(name + '/inv-init', spec.inv(env), 'inv-init')
         which = ctx.choose(2, name)
         for g, v in (spec.ghost_init or {}).items():
@@ -1040,6 +1074,24 @@ class Interp:
         for nm in sorted(mods):
             if nm in frame.locals:
                 frame.locals[nm] = self.havoc_like(frame.locals[nm], nm)
+        for nm in sorted(self.mutated_names(st.body) - mods):
+            try:
+                obj = self.load_name(nm, frame)
+            except PyExc:
+                continue
+            if hasattr(obj, 'havoc') and not isinstance(obj, (list, dict)):
+                old_get = obj.buf.get if hasattr(obj, 'buf') else None
+                obj.havoc(self)           # arrays written in the loop: arbitrary content, same identity
+                fr = spec.modifies.get(nm)
+                if fr is not None and old_get is not None:
+                    # frame: elements outside the declared write set keep their value
+                    q = tuple(z3.Int('fr_%s_%d' % (nm, k)) for k in range(len(obj.buf.shape)))
+                    outside = sym.Not(fr(env, q))
+                    ctx.assume(z3.ForAll(list(q), sym.Implies(outside, sym.eq(obj.buf.get(q), old_get(q)))))
+                    if which == 1:
+                        obj.buf.guards = getattr(obj.buf, 'guards', []) + [(name, lambda idx, fr=fr: fr(env, idx))]
+            elif isinstance(obj, (list, dict, Obj)):
+                raise Unsupported('loop mutates %s (a %s) -- needs an abstract container for a cut-point loop' % (nm, type(obj).__name__))
         if spec.havoc is not None:
             spec.havoc(env)
         ctx.assume(spec.inv(env))
@@ -1578,7 +1630,13 @@ class LoopEnv:
 
 class LoopSpec:
     def __init__(self, inv, decreases=None, havoc=None, variant_real=False, variant_step=1,
-                 ghost_init=None, ghost_step=None):
+                 ghost_init=None, ghost_step=None, modifies=None, lemmas=None):
+        # lemmas: lambda env -> [(name, formula)] proved one after the other at loop entry; each proved lemma is
+        # available to the following ones and to inv-init (a lemma that cannot be proved is simply not used)
+        self.lemmas = lemmas
+        # modifies: {array name: lambda env, idx_tuple: condition} -- the loop writes that array only at
+        # indices satisfying the condition (proved at every store in the body; elements outside keep their value)
+        self.modifies = modifies or {}
         self.ghost_init = ghost_init
         self.ghost_step = ghost_step
         self.inv = inv
